@@ -37,5 +37,7 @@ SEEDED = [
     ("C05-7", "C05-SIB"),
     ("C05-8", "C05-GRAMMAR"),
     ("C05-9", "C05-KEYS"),
+    ("C05-10", "C05-GRAMMAR"),
+    ("C05-11", "C05-KEYS"),
 ]
 MUTANTS = list(MUTANTS) + [_P("seed-" + sid, _os.path.join(_SEEDS, sid, "patch.diff"), rule) for sid, rule in SEEDED if _os.path.exists(_os.path.join(_SEEDS, sid, "patch.diff"))]
